@@ -61,7 +61,7 @@ class TasksRun:
                 # reports that it has started: that callback was registered before the task's finalizer
                 current_context().parent.add_teardown_callback(run.make_cb({"id": spec["pre_reg"], "raises": None}))
                 await anyio.lowlevel.checkpoint()
-                task_status.started()
+                task_status.started(("started", tid))
             run.log("taskSaw", tid, saw())
             cancelled = anyio.get_cancelled_exc_class()
             beh = spec["beh"]
@@ -197,8 +197,12 @@ class TasksRun:
                         await owner.start_service_task(self.make_body(step, stop), f"task{step['tid']}",
                                                        teardown_action=self.make_action(step, stop))
                 else:
-                    await owner.start_service_task(self.make_body(step, stop), f"task{step['tid']}",
-                                                   teardown_action=self.make_action(step, stop))
+                    sv = await owner.start_service_task(self.make_body(step, stop), f"task{step['tid']}",
+                                                        teardown_action=self.make_action(step, stop))
+                    want = ("started", step["tid"]) if step.get("pre_reg") is not None else None
+                    if sv != want:
+                        self.log("probeFailed", step["tid"], f"start_service_task() returned {sv!r}; the value the task "
+                                                              f"passed to task_status.started() is {want!r}")
 
     async def main(self) -> dict[str, Any]:
         import logging
